@@ -33,9 +33,15 @@ func apiFor(rt string) *extAPI {
 	switch rt {
 	case "gogo":
 		return &extAPI{
-			set:      func(m, d, v interface{}) error { return gogoproto.SetExtension(m.(gogoproto.Message), d.(*gogoproto.ExtensionDesc), v) },
-			get:      func(m, d interface{}) (interface{}, error) { return gogoproto.GetExtension(m.(gogoproto.Message), d.(*gogoproto.ExtensionDesc)) },
-			has:      func(m, d interface{}) bool { return gogoproto.HasExtension(m.(gogoproto.Message), d.(*gogoproto.ExtensionDesc)) },
+			set: func(m, d, v interface{}) error {
+				return gogoproto.SetExtension(m.(gogoproto.Message), d.(*gogoproto.ExtensionDesc), v)
+			},
+			get: func(m, d interface{}) (interface{}, error) {
+				return gogoproto.GetExtension(m.(gogoproto.Message), d.(*gogoproto.ExtensionDesc))
+			},
+			has: func(m, d interface{}) bool {
+				return gogoproto.HasExtension(m.(gogoproto.Message), d.(*gogoproto.ExtensionDesc))
+			},
 			clear:    func(m, d interface{}) { gogoproto.ClearExtension(m.(gogoproto.Message), d.(*gogoproto.ExtensionDesc)) },
 			clearAll: func(m interface{}) { gogoproto.ClearAllExtensions(m.(gogoproto.Message)) },
 			numbers: func(m interface{}) []int32 {
@@ -63,8 +69,12 @@ func apiFor(rt string) *extAPI {
 			proto.SetExtension(m.(proto.Message), d.(protoreflect.ExtensionType), v)
 			return nil
 		},
-		get:   func(m, d interface{}) (interface{}, error) { return proto.GetExtension(m.(proto.Message), d.(protoreflect.ExtensionType)), nil },
-		has:   func(m, d interface{}) bool { return proto.HasExtension(m.(proto.Message), d.(protoreflect.ExtensionType)) },
+		get: func(m, d interface{}) (interface{}, error) {
+			return proto.GetExtension(m.(proto.Message), d.(protoreflect.ExtensionType)), nil
+		},
+		has: func(m, d interface{}) bool {
+			return proto.HasExtension(m.(proto.Message), d.(protoreflect.ExtensionType))
+		},
 		clear: func(m, d interface{}) { proto.ClearExtension(m.(proto.Message), d.(protoreflect.ExtensionType)) },
 		clearAll: func(m interface{}) {
 			mm := m.(proto.Message)
@@ -78,8 +88,10 @@ func apiFor(rt string) *extAPI {
 			})
 			return out
 		},
-		marshal: func(m interface{}) ([]byte, error) { return proto.MarshalOptions{Deterministic: true}.Marshal(m.(proto.Message)) },
-		number:  func(d interface{}) int { return int(d.(protoreflect.ExtensionType).TypeDescriptor().Number()) },
+		marshal: func(m interface{}) ([]byte, error) {
+			return proto.MarshalOptions{Deterministic: true}.Marshal(m.(proto.Message))
+		},
+		number: func(d interface{}) int { return int(d.(protoreflect.ExtensionType).TypeDescriptor().Number()) },
 	}
 }
 
